@@ -622,7 +622,10 @@ class Sym(Interp):
     def h_assume(self, tv, test, polarity, env, ctx):
         if env is None:
             return None
-        env["$path"] = env.get("$path", ()) + ((T(tv), polarity),)
+        t = T(tv)
+        while isinstance(t, tuple) and len(t) == 3 and t[0] == "unop" and t[1] == "not":
+            t, polarity = t[2], not polarity         # `if not X:` is the other branch of `if X:` - one spelling in the path conditions
+        env["$path"] = env.get("$path", ()) + ((t, polarity),)
         return env
 
     def h_return(self, v, n, env, ctx):
@@ -728,6 +731,10 @@ class Sym(Interp):
         tv = self.ev(s.test, env, ctx)
         if is_static(tv):
             return self.exec_block(s.body if self.static_truth(tv) else s.orelse, env, ctx)
+        if is_const(T(tv)) and isinstance(T(tv)[1], bool) and not isinstance(s.test, ast.Constant):
+            # a flag that is a literal on this path (an unrolled `for (x, flag) in ((a, False), (b, True))`, a keyword default of an
+            # inlined helper): only one branch exists
+            return self.exec_block(s.body if T(tv)[1] else s.orelse, env, ctx)
         self.h_test(tv, s.test, "if", env, ctx)
         e1 = self.h_assume(tv, s.test, True, self.fork_env(env), ctx)
         e2 = self.h_assume(tv, s.test, False, self.fork_env(env), ctx)
@@ -790,6 +797,10 @@ class Sym(Interp):
         return out
 
     def _loop(self, s, env, ctx, is_for):
+        if is_for and isinstance(s.iter, (ast.Tuple, ast.List)) and 0 < len(s.iter.elts) <= 8 and not any(isinstance(e_, ast.Starred) for e_ in s.iter.elts) \
+                and any(isinstance(e_, (ast.Tuple, ast.List)) for e_ in s.iter.elts):
+            # for (x, flag) in ((a, False), (b, True)): a loop over a literal display of records is the sequence of its bodies
+            return self._unrolled(s, [self.ev(e_, env, ctx) for e_ in s.iter.elts], env, ctx)
         if is_for and self.static_rooted(s.iter, env, ctx):
             itv0 = self.ev(s.iter, env, ctx)
             if isinstance(itv0, KwV):
